@@ -547,9 +547,11 @@ Varable failures: {var_failed}
                 dt = np.diff(times)
                 if not (dt[0] == dt).all():
                     warn('New time is unstructured')
-                outf.TSTEP = int(
-                    (datetime.datetime(1900, 1, 1, 0) +
-                     dt[0]).strftime('%H%M%S'))
+                # HHMMSS of the step; hours may exceed 23 (e.g., daily files)
+                dtsec = int(round(dt[0].total_seconds()))
+                outf.TSTEP = (
+                    dtsec // 3600 * 10000 + dtsec % 3600 // 60 * 100 +
+                    dtsec % 60)
 
         outf.updatemeta()
         return outf
@@ -794,11 +796,10 @@ Varable failures: {var_failed}
                     if not (dt[0] == dt).all():
                         warn('New time is unstructured')
 
-                    tstep = int(
-                        (
-                            datetime.datetime(1900, 1, 1, 0) + dt.mean()
-                        ).strftime('%H%M%S')
-                    )
+                    dtsec = int(round(dt.mean().total_seconds()))
+                    tstep = (
+                        dtsec // 3600 * 10000 + dtsec % 3600 // 60 * 100 +
+                        dtsec % 60)
                     self.TSTEP = tstep
                 else:
                     self.TSTEP = 10000
